@@ -27,16 +27,32 @@ fn enc_sets(sets: &[SimpleDSet], dim: usize) -> String {
     s
 }
 
-/// largest size bound per dimension
-fn max_bound(dim: usize, thorough: bool) -> usize {
+/// largest size bound per dimension for which the brute-force oracle is run
+fn oracle_bound(dim: usize, thorough: bool) -> usize {
     match (dim, thorough) {
-        (1, false) => 8,
-        (1, true) => 12,
-        (2, false) => 5,
+        (1, false) => 10,
+        (1, true) => 11,
+        (2, false) => 8,
         (2, true) => 9,
-        (3, false) => 4,
-        (3, true) => 8,
+        (3, _) => 7,
+        (4, false) => 5,
         (4, true) => 6,
+        _ => 0,
+    }
+}
+
+/// largest size bound per dimension for the `gen` cases (beyond the oracle bound only the
+/// model comparison and the clauses other than completeness apply)
+fn gen_bound(dim: usize, thorough: bool) -> usize {
+    match (dim, thorough) {
+        (1, false) => 24,
+        (1, true) => 40,
+        (2, false) => 11,
+        (2, true) => 13,
+        (3, false) => 9,
+        (3, true) => 11,
+        (4, false) => 7,
+        (4, true) => 8,
         _ => 0,
     }
 }
@@ -44,20 +60,15 @@ fn max_bound(dim: usize, thorough: bool) -> usize {
 /// number of slices the brute force over (dim, n) is cut into (≈ proportional to its cost)
 fn nparts(dim: usize, n: usize) -> usize {
     match (dim, n) {
-        (1, 9) => 4,
-        (1, 10) => 48,
-        (1, 11) => 480,
-        (1, 12) => 4800,
-        (2, 6) => 4,
-        (2, 7) => 48,
-        (2, 8) => 480,
-        (2, 9) => 4800,
-        (3, 5) => 8,
-        (3, 6) => 64,
-        (3, 7) => 64,
-        (3, 8) => 640,
-        (4, 5) => 8,
-        (4, 6) => 64,
+        (1, 9) => 2,
+        (1, 10) => 16,
+        (1, 11) => 320,
+        (2, 7) => 4,
+        (2, 8) => 64,
+        (2, 9) => 1600,
+        (3, 6) => 2,
+        (3, 7) => 32,
+        (4, 6) => 8,
         _ => 1,
     }
 }
@@ -68,7 +79,7 @@ fn main() {
 
     // the expensive completeness cases first, so that round-robin sharding spreads them evenly
     for dim in 1..=4usize {
-        let top = max_bound(dim, thorough);
+        let top = oracle_bound(dim, thorough);
         for max in (1..=top).rev() {
             for n in (1..=max).rev() {
                 let np = nparts(dim, n);
@@ -90,9 +101,14 @@ fn main() {
     }
 
     for dim in 1..=4usize {
-        let top = max_bound(dim, thorough);
+        let top = gen_bound(dim, thorough);
+        let ob = oracle_bound(dim, thorough);
         for max in (0..=top).rev() {
-            let tags = format!("dim={dim} max={max}{}", if max >= 2 { " nt" } else { "" });
+            let tags = format!(
+                "dim={dim} max={max} oracle={}{}",
+                if max <= ob { "yes" } else { "no" },
+                if max >= 2 { " nt" } else { "" }
+            );
             ctx.case(
                 "gen",
                 &tags,
